@@ -77,12 +77,12 @@ def run_verus_unit(unit, outdir, repo_dir, rlimit=None, canary=True):
         n = len(re.findall(re.escape(kw), text))
         if n and kw != 'external_body':
             res['assumptions'].append(f'unit {unit}: {n} occurrence(s) of `{kw}` in the generated file')
-    gen = os.path.join(outdir, unit + '.rs')
+    gen = os.path.join(outdir, re.sub(r'[^A-Za-z0-9_]', '_', unit) + '.rs')
     open(gen, 'w').write(text)
     cmd = ['verus', gen, '--output-json', '--time-expanded', '--triggers-mode', 'silent', '--multiple-errors', '4']
     if rlimit:
         cmd += ['--rlimit', str(rlimit)]
-    res['cmd'] = ' '.join(['verus', f'<extracted {unit}.rs>'] + cmd[2:])
+    res['cmd'] = ' '.join(['verus', f'<extracted {unit}>'] + cmd[2:])
     try:
         p = subprocess.run(cmd, capture_output=True, text=True, timeout=1500, cwd=outdir)
     except subprocess.TimeoutExpired:
@@ -209,7 +209,9 @@ def kani_inject(scratch, crate):
         except extract.ExtractError as e:
             open(os.path.join(dst, tp['out']), 'w').write(f'compile_error!("extraction failed: {e}");\n')
         os.remove(os.path.join(dst, os.path.basename(tp['template']))) if os.path.exists(os.path.join(dst, os.path.basename(tp['template']))) else None
-    guard = '#[cfg(any(kani, verif_replay))]'
+    # harness modules exist under Kani and in the native replay *test* build of this crate only
+    # (a dependency built with --cfg verif_replay may be no_std: anstyle-parse, colorchoice)
+    guard = '#[cfg(any(kani, all(verif_replay, test)))]'
     root = os.path.join(cdir, cfg.get('root', 'src/lib.rs'))
     with open(root, 'a') as f:
         f.write(f'\n{guard}\nmod verif_kani;\n')
@@ -348,6 +350,10 @@ def classify_kani(name, text):
     return r
 
 
+# <core::io::CustomOwner as Drop>::drop in the core library of Kani 0.68's pinned toolchain
+IO_ERROR_DROP = '_RNvXsd_NtNtCs8xvirJzNMvV_4core2io5errorNtB5_11CustomOwnerNtNtNtB9_3ops4drop4Drop4drop'
+
+
 def run_kani_job(scratch, job, playback=False, only=None):
     """job: dict(crate, harnesses[list], flags[list], timeout, features/no_default_features, jobs)."""
     crate = job['crate']
@@ -370,14 +376,32 @@ def run_kani_job(scratch, job, playback=False, only=None):
         cmd += ['--features', ','.join(job['features'])]
     if playback:
         cmd += ['-Z', 'concrete-playback', '--concrete-playback=print']
+    if job.get('io_error_unwind'):
+        # Dropping a std::io::Error calls a *stored function pointer* (CustomOwner's drop function).
+        # CBMC resolves it to every function of that type, among them drop glue that again contains
+        # an io::Error: a recursion CBMC unrolls up to the harness' unwind bound with a branching
+        # factor of 4-5 (measured: > 13 min against 34 s).  The recursion limit of that one function
+        # is set to 2; CBMC's *recursion unwinding assertion* (on by default in CBMC 6) then proves
+        # for every harness that no feasible path goes deeper, so nothing is cut off silently.
+        cmd += ['--cbmc-args', '--unwindset', IO_ERROR_DROP + ':' + str(job['io_error_unwind'])]
     env = dict(os.environ)
     env['CARGO_NET_OFFLINE'] = 'true'
     env['CARGO_TARGET_DIR'] = os.path.join(scratch.dir, 'target-kani-' + crate + ('-' + job['tag'] if job.get('tag') else ''))
+    if job.get('fmt_direct'):
+        # harnesses build a core::fmt::Formatter directly (unstable `formatting_options`, available on
+        # Kani's nightly) so that Display/Debug impls are called statically instead of through the
+        # function pointers of fmt::Arguments, which CBMC cannot resolve cheaply
+        env['RUSTFLAGS'] = (env.get('RUSTFLAGS', '') + ' -Zcrate-attr=feature(formatting_options)').strip()
     t0 = time.time()
     total_to = job.get('total_timeout', job.get('timeout', 600) * max(1, (len(harnesses) + nj - 1) // nj) + 600)
     killed = []
     out = run_watched(cmd, cdir, env, total_to, env['CARGO_TARGET_DIR'], job.get('mem_gb', 10), killed)
     wall = time.time() - t0
+    if job.get('io_error_unwind') and 'invalid loop identifier' in out:
+        # the function is not part of this goto program (or the toolchain changed): run without the limit
+        j2 = dict(job)
+        j2.pop('io_error_unwind')
+        return run_kani_job(scratch, j2, playback=playback, only=only)
     per = parse_kani(out)
     results = []
     for h in harnesses:
@@ -400,11 +424,23 @@ def run_kani_job(scratch, job, playback=False, only=None):
     return results
 
 
+CHILD_GROUPS = set()
+
+
+def kill_children():
+    for pg in list(CHILD_GROUPS):
+        try:
+            os.killpg(pg, 9)
+        except Exception:
+            pass
+
+
 def run_watched(cmd, cwd, env, timeout, marker, mem_gb, killed):
     """Run a command; a watchdog kills any cbmc child of this job whose RSS exceeds mem_gb
     (no swap on this machine: a runaway SAT instance would take the box down)."""
     logf = tempfile.TemporaryFile(mode='w+')
     p = subprocess.Popen(cmd, cwd=cwd, env=env, stdout=logf, stderr=subprocess.STDOUT, text=True, start_new_session=True)
+    CHILD_GROUPS.add(p.pid)
     t0 = time.time()
     timed_out = False
     while True:
@@ -436,6 +472,11 @@ def run_watched(cmd, cwd, env, timeout, marker, mem_gb, killed):
                     killed.append(cl[-120:].replace('\0', ' '))
             except Exception:
                 continue
+    CHILD_GROUPS.discard(p.pid)
+    try:
+        os.killpg(p.pid, 9)   # stray cbmc children of a finished driver
+    except Exception:
+        pass
     logf.seek(0)
     out = logf.read()
     logf.close()
@@ -451,7 +492,7 @@ def tail_errors(out):
     return ' | '.join(errs[:4]) if errs else out[-400:].replace('\n', ' | ')
 
 
-def native_replay(scratch, crate, harness, values, expect_msgs, features=None, no_default_features=False):
+def native_replay(scratch, crate, harness, values, expect_msgs, features=None, no_default_features=False, fmt_direct=False):
     """Run the same harness source natively (`--cfg verif_replay`) with the recorded values."""
     kani_inject(scratch, crate)
     cfg = json.load(open(os.path.join(VERIF, 'kani', crate, 'inject.json')))
@@ -462,6 +503,9 @@ def native_replay(scratch, crate, harness, values, expect_msgs, features=None, n
     env['CARGO_TARGET_DIR'] = os.path.join(scratch.dir, 'target-replay')
     env['VERIF_REPLAY_VALUES'] = ';'.join(','.join(str(b) for b in grp) for grp in (values or []))
     cmd = ['cargo', 'test', '--offline', '--lib']
+    if fmt_direct:
+        cmd = ['cargo', '+nightly', 'test', '--offline', '--lib']
+        env['RUSTFLAGS'] += ' -Zcrate-attr=feature(formatting_options)'
     if no_default_features:
         cmd += ['--no-default-features']
     if features:
